@@ -302,6 +302,102 @@ def rule_import_scheduled(ctx, rep):
         raise AnalysisError("no forwarding wrapper around AddImportsVisitor.add_needed_import found (libcst_transformer.add_needed_import anchor vanished)")
 
 
+def rule_alias_preserved(ctx, rep):
+    rep.rule(
+        "R-ALIAS-PRESERVED",
+        "where an allow-listed import rewriter re-emits import statements (cst.ImportAlias(...) constructions), the `asname` it writes is "
+        "the recorded alias itself: a parameter that is never re-assigned, or a loop variable over the recorded pairs -- not a value "
+        "computed from it (dropping or renaming an alias unbinds the name the rest of the file uses: `import os.path as path`)",
+        min_instances=1,
+    )
+    n = 0
+    for cq in IMPORT_REMOVAL_OWNERS:
+        if cq not in ctx.prog.classes:
+            continue
+        for m in ctx.prog.classes[cq].methods.values():
+            r = ctx.resolver(m)
+            r.single_assignments()
+            pm = ctx.parents(m)
+            for c in walk_no_nested(m.node):
+                if not (isinstance(c, ast.Call) and last_attr(c.func) == "ImportAlias"):
+                    continue
+                av = next((k.value for k in c.keywords if k.arg == "asname"), None)
+                if av is None:
+                    continue
+                names = [x.args[0] for x in ast.walk(av) if isinstance(x, ast.Call) and last_attr(x.func) == "Name" and x.args]
+                if not names:
+                    continue
+                n += 1
+                ok, why = True, ""
+                for x in names:
+                    if not isinstance(x, ast.Name):
+                        ok, why = False, f"the alias text is computed: `{unparse(x)[:40]}`"
+                        continue
+                    if x.id in m.params():
+                        if r._assign_counts.get(x.id, 0) > 1:
+                            ok, why = False, f"parameter `{x.id}` is re-assigned before it is written as the alias"
+                        continue
+                    # loop / comprehension variable: its iterable must be the recorded collection, not a mapped copy
+                    cur = pm.get(id(c))
+                    it = None
+                    while cur is not None and cur is not m.node and it is None:
+                        gens = cur.generators if isinstance(cur, (ast.ListComp, ast.GeneratorExp, ast.SetComp)) else ([cur] if isinstance(cur, ast.For) else [])
+                        for g in gens:
+                            if x.id in {y.id for y in ast.walk(g.target) if isinstance(y, ast.Name)}:
+                                it = g.iter
+                        cur = pm.get(id(cur))
+                    if it is None:
+                        ok, why = False, f"`{x.id}` is neither a parameter nor a loop variable over the recorded imports"
+                    elif not isinstance(r.expand(it), (ast.Name, ast.Attribute, ast.Call)) or isinstance(r.expand(it), (ast.GeneratorExp, ast.ListComp)):
+                        ok, why = False, f"the aliases are drawn from `{unparse(it)[:50]}`, a transformed copy of the recorded (name, alias) pairs"
+                rep.check("R-ALIAS-PRESERVED", m.qname, m.loc(c), ok, f"{m.name}:asname", why)
+    if n == 0:
+        raise AnalysisError("no ImportAlias(asname=...) construction found in the allow-listed import rewriters")
+
+
+def rule_global_removal_scope(ctx, rep, rule_id="R-GLOBAL-REMOVAL-SCOPE"):
+    """Shared with C08: `global x` is a no-op only at module level; in a class body it makes `x = ...` bind the module global."""
+    rep.rule(
+        rule_id,
+        "a transformer removes a `global` statement (leave_Global returning a removal) only under the fact that the statement's scope is "
+        "the module's GlobalScope: in a class body `global x` is what makes the assignment bind the module-level name, removing it there "
+        "unbinds every other reader of x",
+        min_instances=1,
+    )
+    n = 0
+    for fn in ctx.prog.live_functions():
+        if fn.name != "leave_Global" or fn.cls is None:
+            continue
+        fa = ctx.flow(fn)
+        r = ctx.resolver(fn)
+        for ex in fa.exits:
+            if ex.kind != "return" or ex.value is None:
+                continue
+            v = unparse(ex.value)
+            if "REMOVE" not in v and "RemoveFromParent" not in v:
+                continue
+            n += 1
+            ok = True
+            for must, _may in ex.state.parts:
+                good = False
+                for pol, e in _fact_exprs(must):
+                    if pol and isinstance(e, ast.Call) and call_name(e) == "isinstance" and len(e.args) == 2 and unparse(e.args[1]).split(".")[-1] == "GlobalScope":
+                        src = r.expand(e.args[0])
+                        if isinstance(src, ast.Call) and last_attr(src.func) == "get_metadata" and src.args and unparse(src.args[0]).split(".")[-1] == "ScopeProvider":
+                            good = True
+                ok = ok and good
+            rep.check(rule_id, fn.qname, fn.loc(ex.node), ok, "removal-under-GlobalScope",
+                      "the `global` statement is removed on a path where its scope is not known to be the module's GlobalScope (class bodies included)")
+    if n == 0:
+        rep.instance(rule_id, "codebase", "src/", True, detail="no transformer removes global statements")
+
+
+def _fact_exprs(must):
+    from ..flow import fact_exprs
+
+    return fact_exprs(must)
+
+
 def rule_nodetype(ctx, rep, prop_rule="R-NODETYPE"):
     """ComparisonTarget.operator must be a comparison operator: the value assigned in every branch of the inversion match."""
     rep.rule(
@@ -351,6 +447,8 @@ def check(ctx, rep):
     rule_import_pair(ctx, rep)
     rule_import_removal_owner(ctx, rep)
     rule_import_scheduled(ctx, rep)
+    rule_alias_preserved(ctx, rep)
+    rule_global_removal_scope(ctx, rep)
     rule_nodetype(ctx, rep)
     rep.not_covered += [
         "scope-aware reasoning about which assignments RemoveUnusedVariables may drop (depends on libcst scope metadata)",
